@@ -274,7 +274,7 @@ func panicSite(stack string) string {
 }
 
 // inflight records the case that is about to run (so that the driver can name it if the process dies or hangs) and
-// starts the watchdog: a single case that runs longer than the allowance (VERIF_CASE_LIMIT_S; cases take milliseconds
+// starts the watchdog: a single case that runs longer than the allowance (VERIF_CASE_LIMIT_S, default 600 s quick / 1800 s thorough; cases take milliseconds
 // to seconds) ends the process with status 97 after dumping all goroutine stacks. The driver then replays that case
 // alone with a doubled allowance - only a case that does not finish twice is reported (as a hang).
 func (r *runner[C]) inflight(cj []byte) (stop func()) {
@@ -301,9 +301,9 @@ func caseLimit() time.Duration {
 		return time.Duration(v) * time.Second
 	}
 	if Thorough() {
-		return 900 * time.Second
+		return 1800 * time.Second
 	}
-	return 300 * time.Second
+	return 600 * time.Second
 }
 
 func (r *runner[C]) exec(c C, count bool) *Violation {
